@@ -12,7 +12,10 @@ HARNESSES = {
     'K-handles': dict(path='rolling::file_number::verif_kani::k_handles', fn='k_handles', bounded=True, bound='fixed shape: 3 appends over 2 files, truncate position symbolic in 0..=3'),
     'K-hdr': dict(path='frame::header::verif_kani::k_hdr_roundtrip', fn='k_hdr_roundtrip', bounded=False, bound='all 2^56 7-byte headers; loop-free'),
     'K-le': dict(path='frame::header::verif_kani::k_le', fn='k_le', bounded=False, bound='all u16/u32/u64 values; loops bounded by the byte width'),
-    'K-getrange': dict(path='mem::rolling_buffer::verif_kani::k_getrange', fn='k_getrange', bounded=True, bound='ring buffers of <= 3 bytes (capacity 4) at every rotation (0..=3), all RangeBounds kinds with symbolic bounds'),
+    'K-getrange-r0': dict(path='mem::rolling_buffer::verif_kani::k_getrange_r0', fn='k_getrange_r0', bounded=True, bound='ring buffers of <= 3 bytes (capacity 4) at rotation 0, all RangeBounds kinds with symbolic bounds'),
+    'K-getrange-r1': dict(path='mem::rolling_buffer::verif_kani::k_getrange_r1', fn='k_getrange_r1', bounded=True, bound='ring buffers of <= 3 bytes (capacity 4) at rotation 1, all RangeBounds kinds with symbolic bounds'),
+    'K-getrange-r2': dict(path='mem::rolling_buffer::verif_kani::k_getrange_r2', fn='k_getrange_r2', bounded=True, bound='ring buffers of <= 3 bytes (capacity 4) at rotation 2, all RangeBounds kinds with symbolic bounds'),
+    'K-getrange-r3': dict(path='mem::rolling_buffer::verif_kani::k_getrange_r3', fn='k_getrange_r3', bounded=True, bound='ring buffers of <= 3 bytes (capacity 4) at rotation 3, all RangeBounds kinds with symbolic bounds'),
     'K-p2i': dict(path='mem::queue::verif_kani::k_p2i', fn='k_p2i', bounded=True, bound='<= 4 record metas with symbolic strictly increasing positions, symbolic searched position'),
     'K-range-ii': dict(path='mem::queue::verif_kani::k_range_ii', fn='k_range_ii', bounded=True, bound='2 records x 1-byte payloads at symbolic positions; bound kinds ii with symbolic values'),
     'K-range-ie': dict(path='mem::queue::verif_kani::k_range_ie', fn='k_range_ie', bounded=True, bound='2 records x 1-byte payloads at symbolic positions; bound kinds ie with symbolic values'),
@@ -23,7 +26,9 @@ HARNESSES = {
     'K-range-ui': dict(path='mem::queue::verif_kani::k_range_ui', fn='k_range_ui', bounded=True, bound='2 records x 1-byte payloads at symbolic positions; bound kinds ui with symbolic values'),
     'K-range-ue': dict(path='mem::queue::verif_kani::k_range_ue', fn='k_range_ue', bounded=True, bound='2 records x 1-byte payloads at symbolic positions; bound kinds ue with symbolic values'),
     'K-range-uu': dict(path='mem::queue::verif_kani::k_range_uu', fn='k_range_uu', bounded=True, bound='2 records x 1-byte payloads at symbolic positions; bound kinds uu with symbolic values'),
-    'K-mrs': dict(path='record::verif_kani::k_mrs', fn='k_mrs', bounded=True, bound='<= 2 payloads of <= 1 byte each, symbolic first position'),
+    'K-mrs-0': dict(path='record::verif_kani::k_mrs_0', fn='k_mrs_0', bounded=True, bound='empty batch, symbolic first position'),
+    'K-mrs-1': dict(path='record::verif_kani::k_mrs_1', fn='k_mrs_1', bounded=True, bound='1 payload of <= 2 bytes, symbolic first position'),
+    'K-mrs-2': dict(path='record::verif_kani::k_mrs_2', fn='k_mrs_2', bounded=True, bound='2 payloads of <= 1 byte each, symbolic first position'),
 }
 
 RSS_LIMIT_KB = 12 * 1024 * 1024
